@@ -26,7 +26,9 @@ META = {
             "Server+endpoint per tunnel mode carries position-dependent payloads of boundary sizes both ways; the front stage "
             "alone (TLSHelloConn on a scripted connection: a hello with bytes behind it in one segment) is read with "
             "every caller buffer size; eight concurrent connections through one endpoint per mode carry payloads in "
-            "which every word names direction, connection and offset (oracle: each connection's bytes are a prefix of "
+            "which every word names direction, connection and offset; sideConn.Read is driven across message boundaries "
+            "(several frames per message, zero-length messages and frames, a connection lost in the middle of a message - "
+            "proved: delivered bytes = arrived bytes, a cut is an error and never io.EOF) (oracle: each connection's bytes are a prefix of "
             "what was written on that very connection); the corpus runs once more under the Go race detector.",
     "note": "Partial (runtime): the interleaving of the two copy loops, TCP segmentation, websocket buffering and the "
             "message reader's chunking are schedule parameters of the model, not derived from the Go runtime; the close "
@@ -97,6 +99,31 @@ def read_term(r):
     return "KRead %s %s %d %d %s" % (script_term(r["script"]), nlist(ms), r["total"], ended, nlist(later))
 
 
+def readf_term(g):
+    ms = []
+    cut = g["total"] - g["complete"]
+    for f in g["script"]:
+        t = f["t"]
+        if t == "bin":
+            ms.append("GBin [zeros %d] true" % f["len"])
+        elif t == "frag":
+            ms.append("GBin [%s] true" % "; ".join("zeros %d" % p for p in f.get("parts") or []))
+        elif t == "cut":
+            ms.append("GBin [zeros %d] false" % max(cut, 0))     # what had left the writer when the connection went
+        elif t == "text":
+            ms.append("GText")
+        elif t == "close":
+            ms.append("GClose %d" % f.get("code", 0))
+        else:
+            ms.append("GErr")
+    bufs = g["bufs"]
+    need = len(g["script"]) + 6 + sum(f["len"] // min(bufs) + 2 + len(f.get("parts") or []) for f in g["script"])
+    rs = [bufs[i % len(bufs)] for i in range(need)]
+    ended = {"eof": 1, "error": 2}.get(g["ended"], 9)
+    later = [{"data": 0, "eof": 1, "error": 2, "block": 3}.get(k, 9) for k in g.get("later") or []]
+    return "KReadF [%s] %s %d %d %s" % ("; ".join(ms), nlist(rs), g["total"], ended, nlist(later))
+
+
 def reply_term(p):
     return "KReply %d %d %s %d %s" % (p["cap"], p["len"], cbool(p["n"] >= 0), max(p["n"], 0), cbool(p["aliased"]))
 
@@ -151,6 +178,11 @@ def to_coq(c):
         return write_term(c["write"])
     if s == "read":
         return read_term(c["read"])
+    if s == "readf":
+        g = c.get("readf")
+        if not g or g.get("setup_err"):
+            return None
+        return readf_term(g)
     if s == "reply":
         return reply_term(c["reply"])
     if s == "pipe":
@@ -216,6 +248,28 @@ def impl_oracle(c):
         if closed and "block" in (r.get("later") or []):
             return ("side-later-read-hung", "the websocket was closed, yet a Read after the first end blocked: %s"
                     % r.get("later"))
+    elif s == "readf":
+        g = c.get("readf")
+        if not g or g.get("setup_err"):
+            return None
+        script = [(f["t"], f["len"]) + ((tuple(f["parts"]),) if f.get("parts") else ()) for f in g["script"]]
+        if g["too_long"]:
+            return ("side-read-overrun", "sideConn.Read returned more bytes than its buffer holds")
+        if not g["prefix_ok"]:
+            return ("side-readf-bytes", "bytes read are not a prefix of the bytes of the messages sent (script %s, "
+                    "buffers %s, %d read)" % (script, g["bufs"], g["total"]))
+        if g["ended"] not in ("eof", "error"):
+            return ("side-readf-hung", "sideConn.Read did not end after the stream's end (script %s): %s" % (script, g["ended"]))
+        if g["total"] < g["complete"]:
+            return ("side-readf-short", "the Reads ended (%s) after %d bytes although %d bytes of complete messages had "
+                    "been sent before the end (script %s, buffers %s)" % (g["ended"], g["total"], g["complete"], script, g["bufs"]))
+        has_cut = any(f["t"] == "cut" for f in g["script"])
+        if has_cut and g["ended"] == "eof":
+            return ("side-readf-cut-as-eof", "the connection was lost in the middle of a message, yet sideConn.Read reported "
+                    "a clean end of stream (io.EOF) after %d bytes (script %s)" % (g["total"], script))
+        if "block" in (g.get("later") or []):
+            return ("side-readf-later-hung", "the websocket was closed, yet a Read after the first end blocked: %s (script %s)"
+                    % (g.get("later"), script))
     elif s == "wfail":
         w = c.get("wfail")
         if not w:
@@ -337,11 +391,14 @@ def run(ck):
                                      "-e2e", "0" if not ck.thorough else "30"], timeout=1200)
             nrace = sum(1 for line in out.splitlines() if line.startswith("{"))
             ck.coverage["race_detector_cases"] = nrace
-            if "DATA RACE" in err:
-                i = err.index("DATA RACE")
+            # only reports whose stacks run through the repository: the harness itself reads a
+            # handler's bookkeeping after an observation bound elapsed (seen under seeded changes)
+            blocks = [b for b in err.split("WARNING: DATA RACE")[1:] if "shanhu.io/g/" in b.split("==================")[0]]
+            ck.coverage["race_detector_reports_outside_repo"] = err.count("WARNING: DATA RACE") - len(blocks)
+            if blocks:
                 ck.violation("impl:data-race", "the Go race detector reported a data race while proxied connections were "
-                             "transferring and closing", {"stderr": err[max(0, i - 20):i + 3500]})
-            elif rc != 0:
+                             "transferring and closing", {"stderr": ("WARNING: DATA RACE" + blocks[0])[:3500]})
+            elif rc != 0 and "DATA RACE" not in err:
                 ck.broken.append({"what": "race-detector run failed", "detail": err[-1500:]})
 
     for c in cases:
@@ -383,7 +440,7 @@ def run(ck):
 
         def eval_shard(s):
             txt = ("From Coq Require Import List NArith.\n"
-                   "From Verif Require Import Lib.Bytes Sni.Wire Sni.Hello Sni.Stream Sni.StreamCorr.\n"
+                   "From Verif Require Import Lib.Bytes Sni.Wire Sni.Hello Sni.Stream Sni.SideRead Sni.StreamCorr.\n"
                    "Import ListNotations.\nLocal Open Scope N_scope.\n"
                    "Definition cases : list scase := [\n  " + ";\n  ".join(terms[s:s + shard]) + "\n].\n"
                    "Definition M := Eval vm_compute in mismatches cases.\nPrint M.\n")
